@@ -1354,11 +1354,19 @@ def _b_sorted(i, a, k, t):
     if isinstance(a[0], Opaque):
         return Opaque(f"sorted({to_text(a[0])})")
     vals = list(a[0])
-    if k:
+    rev = k.get("reverse", False) if k else False
+    if k and "key" in k:
+        try:
+            keys = [i.apply(k["key"], [v], {}, t) for v in vals]
+        except Unsupported:
+            keys = None
+        if keys is not None and isinstance(rev, bool) and (all(isinstance(x, (int, bool)) for x in keys) or all(isinstance(x, str) for x in keys)):
+            order = sorted(range(len(vals)), key=lambda n: keys[n], reverse=rev)
+            return [vals[n] for n in order]
         i.events.append(("sorted-with-key", vals))
         return vals
-    if all(isinstance(x, (str, int)) for x in vals):
-        return sorted(vals)
+    if all(isinstance(x, (str, int)) for x in vals) and isinstance(rev, bool):
+        return sorted(vals, reverse=rev)
     return vals
 
 
